@@ -18,6 +18,22 @@ from .terms import T
 UNARY_SPECIAL = ('exp', 'log', 'sqrt', 'ncdf', 'npdf', 'cos', 'sin', 'cbrt')
 
 
+
+def _cancel_mul_div(t):
+    """mul(.., c, .., div(u, c)) -> (mul(.., u), c): the syntactic cancellation c * (u / c) = u (valid for c != 0)"""
+    if t.op != 'mul':
+        return None
+    args = list(t.args)
+    for i, x in enumerate(args):
+        if x.op == 'div':
+            u, c = x.args
+            for j, y in enumerate(args):
+                if j != i and y is c:
+                    rest = [args[k] for k in range(len(args)) if k not in (i, j)]
+                    return (tm.mul(*(rest + [u])) if rest else u), c
+    return None
+
+
 class Translator:
     def __init__(self):
         self.cache = {}
@@ -27,6 +43,8 @@ class Translator:
         self.apps = {}           # fname -> list of (arg T, z3 arg, z3 app)
         self.axioms = []
         self.z3vars = {}
+        self.ext_axioms = False  # extended exp instances: exp(-y) exp(y) = 1, exp(c (u / c)) = exp(u)
+        self.ext_possible = 0
         self.big_axioms = True   # False: big operators are pure uninterpreted functions (congruence only) - a weaker, still sound theory
 
     # -- helpers
@@ -168,6 +186,15 @@ class Translator:
                     e_ = self.tr(tm.app('exp', x_))
                     prod = e_ if prod is None else prod * e_
                 ax.append(zapp == prod)         # exp(a + b) = exp(a) exp(b)
+            # extended instances (second attempt only, see check_sat): they add nonlinear terms that slow unrelated proofs
+            red = _cancel_mul_div(targ)
+            if targ.op == 'neg' or red is not None:
+                self.ext_possible += 1
+            if self.ext_axioms and targ.op == 'neg':
+                ax.append(zapp * self.tr(tm.app('exp', targ.args[0])) == 1)       # exp(-y) exp(y) = 1
+            if self.ext_axioms and red is not None:
+                u_, c_ = red
+                ax.append(z3.Implies(self.tr(c_) != 0, zapp == self.tr(tm.app('exp', u_))))   # exp(c * (u / c)) = exp(u)
             ax.append(zapp > 0)
             ax.append(z3.Implies(zarg == 0, zapp == 1))
             ax.append(zapp >= 1 + zarg)          # exp(x) >= 1 + x
@@ -402,10 +429,22 @@ def model_eval(model_dict, t):
 
 
 def check_sat(formulas, timeout_ms=20000, want_model=False, use_cvc5=True, tactic=None, big_axioms=True):
-    """Satisfiability of the conjunction of T formulas (with axioms of everything mentioned)."""
+    """Satisfiability of the conjunction of T formulas (with axioms of everything mentioned).
+    Not-unsat answers are retried once with the extended exp instances when the problem has any."""
+    res = _check_sat(formulas, timeout_ms, want_model, use_cvc5, tactic, big_axioms, False)
+    if res.status != 'unsat' and getattr(res, 'ext_possible', 0):
+        res2 = _check_sat(formulas, timeout_ms, want_model, use_cvc5, tactic, big_axioms, True)
+        res2.time_s += res.time_s
+        if res2.status == 'unsat' or res.status != 'sat' or res2.status == 'sat':
+            return res2
+    return res
+
+
+def _check_sat(formulas, timeout_ms, want_model, use_cvc5, tactic, big_axioms, ext_axioms):
     t0 = time.time()
     tr = Translator()
     tr.big_axioms = big_axioms
+    tr.ext_axioms = ext_axioms
     zs = [tr.tr(f) for f in formulas]
     s = z3.Solver() if tactic is None else z3.Tactic(tactic).solver()
     s.set('timeout', int(timeout_ms))
@@ -428,6 +467,7 @@ def check_sat(formulas, timeout_ms=20000, want_model=False, use_cvc5=True, tacti
             r2 = _cvc5(s, timeout_ms)
             if r2 is not None:
                 res = Result(r2, None, 'cvc5', time.time() - t0)
+    res.ext_possible = tr.ext_possible
     try:
         head = s.to_smt2()
         res.smt2_head = head[:1500]
